@@ -18,8 +18,9 @@ IMPORTS = ["from Reduino.Actuators import DCMotor", "from Reduino.Communication 
            "from Reduino.Core import analog_read"]
 META_PART = ("C04_motor: device model of set_speed/backward/stop/coast/invert/ramp (20 steps)/run_for with the PWM rounding "
              "static_cast<int>(|x|*255+0.5f) and truncating delays; clamp clause proved for all values and histories; the mode/pin difference "
-             "for 0 < |speed| < 1/510 refuted with the witness set_speed(0.001); get_mode(); the general device = host simulation for the motor "
-             "is NOT proved (only checked by the oracle and on a closed example).")
+             "for 0 < |speed| < 1/510 refuted with the witness set_speed(0.001); get_mode(); device = host proved for ALL commands and histories inside "
+             "the guard (C04_motor_partial: firmware events = host level signal event by event with duty = nearest PWM count, proved within 1/2 count "
+             "of 255*|applied|; sleeps truncated, proved < 1 ms; getters equal; no host call raises).")
 
 NAMES = {0: "set_speed", 1: "backward", 2: "stop", 3: "coast", 4: "invert", 5: "ramp", 6: "run_for", 7: "get_speed",
          8: "get_applied_speed", 9: "is_inverted", 10: "get_mode"}
@@ -356,7 +357,7 @@ def run_unit(ctx: C.Ctx):
                  "speed with 0 < |x| < 1/510 (outside: F-C04-motor-tiny-speed-mode)",
         "unmodelled": ["float32 arithmetic of the device (exact rationals; PWM duty compared within one count, which the statement allows)",
                        "numeric strings accepted by the host's float()", "negative durations (the host raises; the device clamps to 0)",
-                       "the general simulation theorem device = host for the motor is not proved (clamp clause and refutation only)"],
+                       ],
         "known_replayed": replayed,
         "trusted_base": ["harness/props/c04_motor.py (grouping of the (DW in1, DW in2, AW enable) triple; tolerances)", "coq/Wire/C04_motorW.v (codecs)",
                          "harness/impl/c04_impl.py wraps DCMotor._apply_speed / stop / coast (completed drive changes)"],
